@@ -259,8 +259,11 @@ pub enum FrameTy {
     F32Mono,
     I24x1,
     F64x4,
+    /// values that need more bits than the format's float companion has (a detour through floats would show)
+    I32x2,
+    I64x1,
 }
-pub const FRAME_TYS: [FrameTy; 6] = [FrameTy::I16x2, FrameTy::F32x2, FrameTy::U8x3, FrameTy::F32Mono, FrameTy::I24x1, FrameTy::F64x4];
+pub const FRAME_TYS: [FrameTy; 8] = [FrameTy::I16x2, FrameTy::F32x2, FrameTy::U8x3, FrameTy::F32Mono, FrameTy::I24x1, FrameTy::F64x4, FrameTy::I32x2, FrameTy::I64x1];
 
 #[derive(Clone, Copy, Debug, PartialEq, Eq, Serialize, Deserialize)]
 pub enum SliceOp {
@@ -312,6 +315,8 @@ small_arr!(f32, 2, |a: i32| a as f32 * 0.03125, |a: i32| a as f32 * 0.0625, |g: 
 small_arr!(u8, 3, |a: i32| (128 + a) as u8, |a: i32| a as i8, |g: f32| g);
 small_arr!(I24, 1, |a: i32| I24::new(a * 1000).unwrap(), |a: i32| I24::new(a * 900).unwrap(), |g: f32| g);
 small_arr!(f64, 4, |a: i32| a as f64 * 0.03125, |a: i32| a as f64 * 0.0625, |g: f32| g as f64);
+small_arr!(i32, 2, |a: i32| a * 50_000_017, |a: i32| a * 6_000_011, |g: f32| g);
+small_arr!(i64, 1, |a: i32| a as i64 * 200_000_000_000_000_037, |a: i32| a as i64 * 30_000_000_000_000_011, |g: f32| g as f64);
 impl Small for f32 {
     fn small(i: usize, salt: u32) -> Self {
         (((i * 7 + salt as usize) % 41) as i32 - 20) as f32 * 0.03125
@@ -342,10 +347,22 @@ where
     st.class_if(mismatch, "length mismatch (must panic, destination untouched)");
     st.class_if(c.la == 0, "empty destination");
     let mut a = a0.clone();
+    // the closures record their arguments: the k-th call must be about element k
+    let seen: std::cell::RefCell<Vec<(F, Option<F>)>> = std::cell::RefCell::new(Vec::new());
     let r = pan::catch(|| match c.op {
         SliceOp::Equilibrium => ds::equilibrium(&mut a[..]),
-        SliceOp::MapInPlace => ds::map_in_place(&mut a[..], |f| f.scale_amp(F::gain())),
-        SliceOp::ZipMapInPlace => ds::zip_map_in_place(&mut a[..], &b_same[..], |x, y| if x == y { x } else { y }),
+        SliceOp::MapInPlace => ds::map_in_place(&mut a[..], |f| {
+            seen.borrow_mut().push((f, None));
+            f.scale_amp(F::gain())
+        }),
+        SliceOp::ZipMapInPlace => ds::zip_map_in_place(&mut a[..], &b_same[..], |x, y| {
+            seen.borrow_mut().push((x, Some(y)));
+            if x == y {
+                x
+            } else {
+                y
+            }
+        }),
         SliceOp::Write => ds::write(&mut a[..], &b_same[..]),
         SliceOp::AddInPlace => ds::add_in_place(&mut a[..], &b_signed[..]),
         SliceOp::AddInPlaceWithAmp => ds::add_in_place_with_amp_per_channel(&mut a[..], &b_signed[..], amp),
@@ -360,6 +377,14 @@ where
         return Err(format!("{}: panicked: {}", what, p));
     }
     ensure!(a.len() == c.la, "{}: destination length changed", what);
+    if matches!(c.op, SliceOp::MapInPlace | SliceOp::ZipMapInPlace) {
+        let seen = seen.borrow();
+        ensure!(seen.len() == c.la, "{}: the closure was called {} times for {} elements", what, seen.len(), c.la);
+        for (k, (x, y)) in seen.iter().enumerate() {
+            let ok = *x == a0[k] && y.map_or(true, |y| y == b_same[k]);
+            ensure!(ok, "{}: call {} of the closure received {:?} / {:?}, expected element {} = {:?} (the closure is applied element by element in slice order)", what, k, x, y, k, a0[k]);
+        }
+    }
     for i in 0..c.la {
         let exp: F = match c.op {
             SliceOp::Equilibrium => F::EQUILIBRIUM,
@@ -381,17 +406,19 @@ pub fn check_op(c: &OpCase, st: &mut Stats) -> CheckResult {
         FrameTy::F32Mono => ops_typed::<f32>(c, st),
         FrameTy::I24x1 => ops_typed::<[I24; 1]>(c, st),
         FrameTy::F64x4 => ops_typed::<[f64; 4]>(c, st),
+        FrameTy::I32x2 => ops_typed::<[i32; 2]>(c, st),
+        FrameTy::I64x1 => ops_typed::<[i64; 1]>(c, st),
     }
 }
 
 pub fn run(ctx: &mut Ctx) {
     ctx.set_rule(
         "views: (format in {u8,i16,I24,f32,f64,U48}, N in 1..=32, length L, shared|mutable|boxed, offset of the viewed range inside a larger buffer): every L in 0..=2N+1 exhaustively plus proptest lengths up to 4096; \
-         in-place ops: (frame type, operation, destination length, source length, contents salt): every length pair up to 6 x 6 exhaustively plus random lengths up to 300; \
+         in-place ops: (frame type out of [i16;2], [f32;2], [u8;3], f32, [I24;1], [f64;4], [i32;2] and [i64;1] with values wider than their float companion's mantissa; operation, destination length, source length, contents salt): every length pair up to 6 x 6 exhaustively plus random lengths up to 300; \
          non-trivial: N >= 3, N does not divide L, L = 0, boxed, or a non-f32 format; every in-place case",
     );
     ctx.assume("boxed conversions are measured with the harness's counting allocator: zero allocator events during a successful conversion, and every byte allocated for the box is released again after success-and-drop or after a failed conversion");
-    ctx.assume("in-place operations are compared with the element-wise dasp Frame operation (whose per-channel correctness is C03's subject)");
+    ctx.assume("in-place operations are compared with the element-wise dasp Frame operation (whose per-channel correctness is C03's subject); the closures of map_in_place / zip_map_in_place record their arguments: call k must be about element k (a sequential element-by-element map)");
     ctx.require_class("failed boxed conversion");
     ctx.require_class("empty slice at a non-zero offset of a buffer");
     ctx.require_class("length mismatch (must panic, destination untouched)");
@@ -428,7 +455,7 @@ pub fn run(ctx: &mut Ctx) {
         }
     }
     ctx.enumerate("ops/all-small-length-pairs", true, cases.into_iter(), check_op);
-    let strat = (0usize..6, 0usize..6, 0usize..300, 0usize..300, any::<u32>(), any::<bool>()).prop_map(|(t, o, la, lb, salt, same)| OpCase {
+    let strat = (0usize..8, 0usize..6, 0usize..300, 0usize..300, any::<u32>(), any::<bool>()).prop_map(|(t, o, la, lb, salt, same)| OpCase {
         ty: FRAME_TYS[t],
         op: SLICE_OPS[o],
         la,
